@@ -18,7 +18,7 @@ EXPLANATION = (
 )
 TRUSTED = _c02.TRUSTED + ["corner lemma: a multilinear form over a box attains its extremes at corners; a^2 - b^2 additionally at a = 0 / b = 0 when the side straddles zero"]
 ASSUMPTIONS = ["rectangle sides satisfy lower <= upper", "finite endpoints; small shapes with precise products"]
-BUDGET = {'quick': dict(ob_deadline_s=150, total_s=170), 'thorough': dict(ob_deadline_s=900, total_s=2400)}
+BUDGET = {'quick': dict(ob_deadline_s=150, total_s=170), 'thorough': dict(ob_deadline_s=600, total_s=1500)}
 BOUNDS = {'quick': 'endpoint mantissas 1..6 bits (+ - neg pos), 2..3 bits (* and square), prec 2..3, several sign patterns per side'}
 
 
